@@ -228,6 +228,11 @@ macro_rules! impl_ops {
                 ProguardCache::write(&ProguardMapping::new(mapping), &mut out).expect("write to Vec");
                 out
             }
+            /// for generators: a panic of the writer yields an empty file (the protocol run
+            /// reports the panic itself)
+            pub fn write_cache_safe(mapping: &[u8]) -> Vec<u8> {
+                std::panic::catch_unwind(|| write_cache(mapping)).unwrap_or_default()
+            }
             pub fn parse_cache(buf: &'static [u8]) -> Result<ProguardCache<'static>, String> {
                 match ProguardCache::parse(buf) {
                     Ok(c) => Ok(c),
